@@ -171,6 +171,51 @@ pub fn sized_publish<F: Family>(rl: usize) -> F::Packet {
     F::publish_with_payload(vec![0u8; rl.saturating_sub(fixed)])
 }
 
+/// nums = [first code point, count]: every Unicode scalar value in a v5 PUBLISH payload and a v5 will payload that
+/// are flagged as UTF-8, in client id / user name / user property of both families (v3 under both protocol levels)
+fn case_codepoints(input: &Input, ctx: &mut Ctx) -> CaseResult {
+    use mqtt_proto::{v3, v5, Protocol, QoS, QosPid};
+    use std::sync::Arc;
+    let n = input.nums();
+    let mut chars = 0u64;
+    for cp in n[0]..n[0] + n[1] {
+        let c = match char::from_u32(cp as u32) {
+            Some(c) => c,
+            None => continue,
+        };
+        if !ctx.thorough && !(cp < 0x3000 || (cp & 0xFFFF) >= 0xFFF0 || (cp & 0xFFFF) < 4 || (0xFDC0..=0xFE0F).contains(&cp) || (0xD7F0..=0xE00F).contains(&cp) || cp % 16 == 5) {
+            continue;
+        }
+        chars += 1;
+        let text = format!("x{}y", c);
+        let topic = |s: &str| -> Result<mqtt_proto::TopicName, Violation> { std::convert::TryFrom::try_from(s.to_string()).map_err(|e| Violation::new(format!("MQV-INTERNAL topic {:?}", e))) };
+        let mut pb = v5::Publish::new(QosPid::Level0, topic("t")?, bytes::Bytes::from(text.clone().into_bytes()));
+        pb.properties.payload_is_utf8 = Some(true);
+        pb.properties.user_properties = vec![v5::UserProperty { name: Arc::new(c.to_string()), value: Arc::new(text.clone()) }];
+        let mut cn = v5::Connect::new(Arc::new(c.to_string()), 9);
+        let mut will = v5::LastWill::new(QoS::Level1, topic("w")?, bytes::Bytes::from(c.to_string().into_bytes()));
+        will.properties.payload_is_utf8 = Some(true);
+        will.properties.content_type = Some(Arc::new(text.clone()));
+        cn.last_will = Some(will);
+        cn.username = Some(Arc::new(text.clone()));
+        for p in [v5::Packet::Publish(pb), v5::Packet::Connect(cn)] {
+            if let Err(v) = roundtrip::<V5>(&p, ctx) {
+                return Err(Violation::new(format!("code point U+{:04X}: {}", cp, v.msg)));
+            }
+        }
+        let mut c3 = v3::Connect::new(Arc::new(text.clone()), 9);
+        c3.protocol = if cp % 2 == 0 { Protocol::V311 } else { Protocol::V310 };
+        c3.username = Some(Arc::new(c.to_string()));
+        if let Err(v) = roundtrip::<V3>(&v3::Packet::Connect(c3), ctx) {
+            return Err(Violation::new(format!("code point U+{:04X}: {}", cp, v.msg)));
+        }
+    }
+    ctx.label_n("code-points", chars);
+    Ok(())
+}
+
+pub const SUB_CODEPOINTS: Sub = Sub { name: "c01.codepoints", f: case_codepoints };
+
 pub const SUB_V3: Sub = Sub { name: "c01.roundtrip.v3", f: case::<V3> };
 pub const SUB_V5: Sub = Sub { name: "c01.roundtrip.v5", f: case::<V5> };
 pub const SUB_T3: Sub = Sub { name: "c01.typed.v3", f: case_typed::<V3> };
@@ -179,7 +224,7 @@ pub const SUB_S3: Sub = Sub { name: "c01.sized.v3", f: case_sized::<V3> };
 pub const SUB_S5: Sub = Sub { name: "c01.sized.v5", f: case_sized::<V5> };
 
 pub fn subs() -> Vec<Sub> {
-    vec![SUB_V3, SUB_V5, SUB_T3, SUB_T5, SUB_S3, SUB_S5]
+    vec![SUB_V3, SUB_V5, SUB_T3, SUB_T5, SUB_S3, SUB_S5, SUB_CODEPOINTS]
 }
 
 pub fn run(env: &mut Env) -> RunResult {
@@ -188,6 +233,8 @@ pub fn run(env: &mut Env) -> RunResult {
     env.run_tapes(SUB_V5, n * 2, 200)?;
     env.run_tapes(SUB_T3, n / 2, 96)?;
     env.run_tapes(SUB_T5, n, 200)?;
+    env.run_enum(SUB_CODEPOINTS, 0x11_0000 / 1_024, env.thorough(), |i| Input::Nums(vec![i * 1_024, 1_024]))?;
+    env.require("c01.codepoints", "code-points");
     // remaining lengths around every header-width boundary
     let mut sizes: Vec<u64> = vec![4, 5, 6, 126, 127, 128, 129, 16_382, 16_383, 16_384, 16_385];
     if env.thorough() {
